@@ -55,6 +55,7 @@ pub fn sound(store: &AnnotationStore) -> bool {
 
 impl Ctx {
     pub fn new() -> Self {
+        crate::storegen::BARE_KEYS.store(true, std::sync::atomic::Ordering::Relaxed);
         Ctx {}
     }
     pub fn exec(&self, req: &Sx) -> (Sx, Vec<Sx>, bool) {
